@@ -29,6 +29,10 @@ class PathBudgetExceeded(Exception):
     pass
 
 
+class WallBudgetExceeded(BaseException):
+    """the work item used up its wall-clock budget (BaseException: must pass through `except Exception` in the code under test)"""
+
+
 class Unsupported(Exception):
     """an operation left the fragment the engine models; the harness must report inconclusive"""
 
@@ -67,6 +71,7 @@ class Ctx:
         self._base = (0, 0)
         self._decided = {}
         self.decide_timeout_ms = 10000
+        self.deadline = float("inf")   # wall-clock limit of the current work item (set by the harness)
         self._signs = {}
         self._signs_n = 0
         self.nsign = 0
@@ -239,6 +244,8 @@ class Ctx:
         hit = self._decided.get(key)
         if hit is not None and hit[0].eq(cond):
             return hit[1]
+        if time.time() > self.deadline:
+            raise WallBudgetExceeded()
         chk = self.check_lin if is_linear(cond) else self.check
         can_true = chk([cond]) != "unsat"
         can_false = chk([z3.Not(cond)]) != "unsat" if can_true else True
@@ -483,6 +490,8 @@ def explore(fn, max_paths=256):
     work = [[]]
     out = []
     while work:
+        if time.time() > CTX.deadline:
+            raise WallBudgetExceeded()
         prefix = work.pop()
         CTX.new_run(prefix)
         try:
